@@ -58,6 +58,15 @@ class NLP:
                 raise RuntimeError("non-Opti free symbols in NLP probe: %s" % bad)
             self.inactive = ca.vvcat(free) if free else ca.MX(0, 1)
             self.n_inactive = self.inactive.numel()
+            # inactive parameters keep the value the user set; inactive decision variables get an arbitrary number
+            dflt = []
+            for sfree in free:
+                try:
+                    v = DMa(self.opti.debug.value(sfree)).reshape(-1, order="F") if "_p_" in sfree.name() else np.full(sfree.numel(), 0.375)
+                except Exception:
+                    v = np.full(sfree.numel(), 0.375)
+                dflt.append(v)
+            self.inactive_default = np.concatenate(dflt) if dflt else np.zeros(0)
             self._F = ca.Function("nlp", [self.x, self.p, self.inactive], self._outs)
         return self._F
 
@@ -66,7 +75,7 @@ class NLP:
         p = self.p0 if p is None else p
         F = self.F
         if inactive is None:
-            inactive = np.full(self.n_inactive, 0.375)
+            inactive = self.inactive_default
         res = F(x, p, inactive)
         out = {"f": float(res[0]), "g": DMa(res[1]).reshape(-1), "lbg": DMa(res[2]).reshape(-1), "ubg": DMa(res[3]).reshape(-1)}
         for n, r in zip(self.extra_names, res[4:]):
